@@ -371,7 +371,7 @@ func r09_1(c *Ctx, rule string) {
 			got = "state limit"
 		case continued && len(results) == 0:
 			got = "continue"
-		case !continued && len(results) == 1:
+		case !continued && len(distinct(results)) == 1:
 			got = results[0]
 		default:
 			got = fmt.Sprintf("ambiguous(continue=%v, returns=%v)", continued, results)
@@ -398,6 +398,7 @@ func r09_1(c *Ctx, rule string) {
 	}
 	x.StopAtTarget = true
 	x.Run()
+	tail = distinct(tail)
 	okTail := len(tail) == 1 && tail[0] == "(len(p:"+fn.Params[0].Name()+")-len(p:"+fn.Params[1].Name()+"))"
 	c.R.Check(okTail, rule, con+"/tail", c.P.Pos(fn.Pos()), "common prefix exhausted: returns len(p1)-len(p2)", fmt.Sprintf("when one path is a prefix of the other ComparePath returns %v, not len(p1)-len(p2)", tail))
 	// every byte access is guarded by index < (a value not above both lengths):
@@ -463,6 +464,57 @@ func r09_1(c *Ctx, rule string) {
 	// the loop bound is min(len(p1), len(p2))
 	bound := loopCond.Y
 	okBound := c.DerivesFrom(bound, func(v ssa.Value) bool { return c.isCallValueTo(v, "fsutil.min", "builtin:min") }, 3)
+	if !okBound {
+		// min written out: n := len(p1); if len(p2) < n { n = len(p2) } - a
+		// two-way phi of the two lengths whose choice, evaluated under the
+		// three orderings of the lengths, is the smaller one
+		whichLen := func(v ssa.Value) int {
+			call, ok := eng.Canon(v).(*ssa.Call)
+			if !ok || c.P.CalleeName(call) != "builtin:len" {
+				return -1
+			}
+			for i, q := range fn.Params {
+				if eng.Strip(call.Call.Args[0]) == ssa.Value(q) {
+					return i
+				}
+			}
+			return -1
+		}
+		if phi, isPhi := eng.Canon(bound).(*ssa.Phi); isPhi && len(phi.Edges) == 2 && whichLen(phi.Edges[0]) >= 0 && whichLen(phi.Edges[1]) >= 0 && whichLen(phi.Edges[0]) != whichLen(phi.Edges[1]) {
+			if dom := phi.Block().Idom(); dom != nil && len(dom.Instrs) > 0 {
+				if iff, isIf := dom.Instrs[len(dom.Instrs)-1].(*ssa.If); isIf {
+					if cb, isB := iff.Cond.(*ssa.BinOp); isB && whichLen(cb.X) >= 0 && whichLen(cb.Y) >= 0 {
+						okBound = true
+						for _, lens := range [][2]int{{0, 1}, {1, 0}, {1, 1}} {
+							truth := evalCmp(cb.Op, lens[whichLen(cb.X)], lens[whichLen(cb.Y)])
+							// which edge of the phi is taken for this truth value
+							for k, pr := range phi.Block().Preds {
+								var takenWhen bool
+								switch {
+								case pr == dom:
+									takenWhen = dom.Succs[0] == phi.Block()
+								case dom.Succs[0] == pr || dom.Succs[0].Dominates(pr):
+									takenWhen = true
+								default:
+									takenWhen = false
+								}
+								if takenWhen != truth {
+									continue
+								}
+								small := lens[0]
+								if lens[1] < small {
+									small = lens[1]
+								}
+								if lens[whichLen(phi.Edges[k])] != small {
+									okBound = false
+								}
+							}
+						}
+					}
+				}
+			}
+		}
+	}
 	c.R.Check(okBound, rule, con+"/bound", c.pos(loopCond), "the loop runs to min(len(p1), len(p2))", "the comparison loop is not bounded by min(len(p1), len(p2))")
 }
 
@@ -730,7 +782,7 @@ func r09_5(c *Ctx, rule string) {
 	eng.Instrs(lit, func(in ssa.Instruction) {
 		switch b := in.(type) {
 		case *ssa.BinOp:
-			if b.Op != token.EQL && b.Op != token.NEQ || b.Parent() != lit {
+			if b.Op != token.EQL && b.Op != token.NEQ {
 				return
 			}
 			for i, o := range []ssa.Value{b.X, b.Y} {
@@ -739,9 +791,6 @@ func r09_5(c *Ctx, rule string) {
 				}
 			}
 		case *ssa.Call:
-			if b.Parent() != lit {
-				return
-			}
 			switch c.P.CalleeName(b) {
 			case "strings.HasPrefix":
 				k0, is0 := eng.ConstString(b.Call.Args[0])
@@ -982,4 +1031,16 @@ func r09_9(c *Ctx, rule string) {
 	c.R.Floor(rule, "LListxattr calls in loadXattr", len(c.P.CallsTo(lx, "github.com/containerd/continuity/sysx.LListxattr")), 1)
 	c.ObSuccessNeeds(rule, c.name(lx)+"/success-needs-list", lx, nil, nil, list, "listing the entry's extended attributes")
 	c.ObSuccessNeeds(rule, c.name(mk)+"/success-needs-xattrs", mk, nil, nil, c.checkedCallPred("fsutil.loadXattr"), "a checked loadXattr")
+}
+
+func distinct(xs []string) []string {
+	seen := map[string]bool{}
+	var out []string
+	for _, x := range xs {
+		if !seen[x] {
+			seen[x] = true
+			out = append(out, x)
+		}
+	}
+	return out
 }
